@@ -166,3 +166,26 @@ PROPS["C02"] = {
             "reached with the reference codeword counter. Non-trivial = accepted; distinct by content.",
     "assumptions": COMMON_ASSUMPTIONS,
 }
+
+PROPS["C02"]["universes"]["dm_corner_cases"] = ["0", "1", "2"]  # what square symbols can trigger (own placement: none / corner 1 / corner 2)
+
+PROPS["C04"] = {
+    "technique": "round-trip property testing: grammar-based rapid generation of compaction-mode mixtures x 9 security levels + length sweep through all row/column shapes, decoded by an independent ISO 15438 reader",
+    "level_text": "exploration: every accepted (data, level) is read back by an independent reader: start/stop pattern per row, codeword patterns looked up in the frozen table of the row's cluster, left/right row indicators must encode row number, (rows-1)/3, (rows-1) mod 3, columns-1 and the level exactly as ISO 15438 lays them out, length descriptor + 2^(level+1) = rows x columns, zero syndromes over GF(929) at 3^1..3^k, text (4 sub-modes, latches, shifts, pad 29, 913), byte (901/924) and numeric (902) compaction decoded; bytes must equal the input",
+    "level_note": RT_NOTE + "; the 3x929 pattern table is a frozen copy of the pinned tree validated structurally (17 modules, 4+4 elements of width 1..6, cluster formula, distinctness) - no second source exists offline; shape choice and compaction choices are not judged",
+    "parts": [
+        {"name": "regression", "kind": "plain", "test": "TestReplayDir"},
+        {"name": "sweep", "kind": "plain", "test": "TestC04Sweep"},
+        {"name": "rapid", "kind": "rapid", "test": "TestC04Rapid", "checks": {"quick": 50000, "thorough": 2000000}},
+    ],
+    "universes": {"pdf_patterns": [f"{c}/{v}" for c in range(3) for v in range(929)], "pdf_rows": [str(r) for r in range(2, 31)],
+                  "pdf_cols": [str(c) for c in range(2, 31)], "pdf_levels": [str(l) for l in range(9)],
+                  "pdf_submode_transitions": ["alpha>lower", "alpha>mixed", "lower>mixed", "lower>alpha", "mixed>alpha", "mixed>lower", "mixed>punct", "punct>alpha"],
+                  "pdf_byte_segments": ["byte924"] + [f"byte901 rem{r}" for r in range(1, 6)]},
+    "rule": "content = 0..10 grammar segments (upper/lower/mixed/punct runs, paths into the punct sub-mode, digit runs of 1..90 with emphasis on 12/13/14 and "
+            "43..46/87..90, byte runs of length 1..14 (every length mod 6), single bytes between text runs >= 6, text ending in punct sub-mode + single byte + "
+            "punctuation, UTF-8 sequences, short text inside byte runs, case alternation, arbitrary bytes, bulk fills of 100..900 characters), capped at 2800 "
+            "bytes, x level 0..8; sweep = homogeneous contents (digits/upper/high bytes/mixed text) of every 7th (thorough: every) length up to beyond "
+            "capacity. Non-trivial = accepted and (at least 2 compaction segments or a text sub-mode change); distinct by (level, content).",
+    "assumptions": COMMON_ASSUMPTIONS + ["rejection is only judged when even 2 codewords per byte would fit into 900 codewords (capacity boundaries are judged in C10/C13)"],
+}
